@@ -99,8 +99,12 @@ fn harness(e: anyhow::Error, what: &str) -> Fail {
 impl Hist {
     pub fn new(case: &Case, backend: Backend, via: Via, or: Oracles) -> Result<Hist, Fail> {
         let drv = Driver::new(backend, via, &case.cfg).map_err(|e| harness(e, "opening storage"))?;
+        Ok(Hist::with_driver(case, drv, or))
+    }
+
+    pub fn with_driver(case: &Case, drv: Driver, or: Oracles) -> Hist {
         let clients: Vec<Uuid> = (0..case.nclients).map(|i| crate::case::client_uuid(case.salt, i)).collect();
-        Ok(Hist {
+        Hist {
             drv,
             model: Model::default(),
             clients,
@@ -111,7 +115,7 @@ impl Hist {
             or,
             salt: case.salt,
             probe_seq: 0,
-        })
+        }
     }
 
     pub fn know(&mut self, id: Uuid) {
@@ -174,15 +178,15 @@ impl Hist {
         }
     }
 
-    fn dump(&self) -> Result<Dump, Fail> {
+    pub fn dump(&self) -> Result<Dump, Fail> {
         self.drv.dump(&self.clients, &self.ids).map_err(|e| harness(e, "dumping state"))
     }
 
-    fn meta(&self, c: Uuid) -> Result<Meta, Fail> {
+    pub fn meta(&self, c: Uuid) -> Result<Meta, Fail> {
         client_meta(&self.drv, c).map_err(|e| harness(e, "reading the client record"))
     }
 
-    fn state_class(&self, c: Uuid) -> &'static str {
+    pub fn state_class(&self, c: Uuid) -> &'static str {
         let m = self.model.client(c);
         if m.chain.is_empty() {
             "empty"
